@@ -509,3 +509,60 @@ def c07(tier):
     out.append(TS("h_chain_computed", [hr_chain(), assign("DS_r", hrop("hierarchy", "DS_4", "HR_1", "Id_2"))], 3))
     out.append(TS("h_minus_computed", [hruleset("HR_1", "Id_2", [("R1", "a", "=", [("+", "b"), ("-", "c")], None, None)]), assign("DS_r", hrop("hierarchy", "DS_4", "HR_1", "Id_2"))], 3))
     return out
+
+
+# ------------------------------------------------------------------------------------------ C08 time operators
+from vt.astb import time_agg  # noqa: E402
+
+TIME_STRUCTS = [
+    structure("DS_T", [("Id_1", "Integer", I, False), ("Id_2", "Time_Period", I, False), ("Me_1", "Integer", M, True)]),
+    structure("DS_M", [("Id_1", "Integer", I, False), ("Me_1", "Time_Period", M, True), ("Me_2", "Date", M, True), ("Me_3", "Time_Period", M, True), ("Me_4", "Date", M, True)]),
+]
+
+
+def c08(tier):
+    out = []
+    INDS = ["A", "S", "Q", "M", "W", "D"]
+
+    def TT(tid, expr, nrows=2, inds=None, **kw):
+        res = []
+        for ind in (inds or [None]):
+            d = dict(id=tid + ("_" + ind if ind else ""), ast=start(assign("DS_r", expr)), structs=TIME_STRUCTS, nrows=nrows, evaluator="time",
+                     timeout_ms=60000 if tier == "quick" else 400000, samples=3)
+            d["opts"] = {"years": (1990, 2030) if tier == "quick" else (1900, 2100), "int_bound": 1000}
+            if ind:
+                d["opts"]["ind"] = ind
+            if ind == "D" and tier == "quick":
+                d["opts"]["years"] = (2014, 2026)      # daily periods: the year-of-date inversion is the expensive part
+            d.update(kw)
+            res.append(d)
+        out.extend(res)
+    C = lambda items: calc("DS_M", [("measure", n, e) for n, e in items])  # noqa: E731
+    shifts = [1, -1, 3, -3, 12, 53, -60, 0] if tier != "quick" else [1, -1, 5, 0]
+    for n in shifts:
+        TT("timeshift_%s" % str(n).replace("-", "m"), binop("timeshift", "DS_T", n), 2, INDS)
+    TT("period_indicator_ds", unop("period_indicator", "DS_T"), 2)
+    TT("period_indicator_comp", C([("Me_9", unop("period_indicator", "Me_1"))]), 1)
+    for op in ("getyear", "getmonth", "dayofmonth", "dayofyear"):
+        TT("%s_tp" % op, C([("Me_9", unop(op, "Me_1"))]), 1, INDS)
+        TT("%s_date" % op, C([("Me_9", unop(op, "Me_2"))]), 1)
+    TT("datediff_tp", C([("Me_9", binop("datediff", "Me_1", "Me_3"))]), 1, INDS)
+    TT("datediff_date", C([("Me_9", binop("datediff", "Me_2", "Me_4"))]), 1)
+    for unit in ("D", "W", "M", "Q", "S", "A"):
+        for n in ((2, -1) if tier == "quick" else (1, 2, -1, 13, -25)):
+            TT("dateadd_date_%s_%s" % (unit, str(n).replace("-", "m")), C([("Me_9", paramop("dateadd", ["Me_2"], [n, const(unit)]))]), 1)
+    TT("dateadd_tp_D", C([("Me_9", paramop("dateadd", ["Me_1"], [3, const("D")]))]), 1, INDS)
+    TT("dateadd_tp_W", C([("Me_9", paramop("dateadd", ["Me_1"], [-2, const("W")]))]), 1, INDS)
+    order = ["D", "W", "M", "Q", "S", "A"]
+    for tgt in ("A", "S", "Q", "M", "W"):
+        finer = [i for i in order if order.index(i) <= order.index(tgt)]
+        TT("time_agg_tp_%s" % tgt, C([("Me_9", time_agg("Me_1", tgt))]), 1, finer)
+    for tgt in INDS:
+        TT("time_agg_date_%s_first" % tgt, C([("Me_9", time_agg("Me_2", tgt, conf="first"))]), 1)
+        TT("time_agg_date_%s_last" % tgt, C([("Me_9", time_agg("Me_2", tgt, conf="last"))]), 1)
+    TT("flow_to_stock", unop("flow_to_stock", "DS_T"), 3, ["M", "W"])
+    TT("stock_to_flow", unop("stock_to_flow", "DS_T"), 3, ["Q", "D"])
+    for op in ("=", "<>", "<", ">", "<=", ">="):
+        TT("cmp_tp_%s" % sn(op), C([("Me_9", binop(op, "Me_1", "Me_3"))]), 1)
+        TT("cmp_date_%s" % sn(op), C([("Me_9", binop(op, "Me_2", "Me_4"))]), 1)
+    return out
